@@ -266,7 +266,7 @@ pub fn run(ctx: &mut Ctx) {
     {
         let n = 3;
         let dags = all_dags(n);
-        ctx.space("jax/D3", &format!("{} labelled DAGs over {:?} x 8 subsets; all stanza orders, all gene-row orders (<=4 rows, rotations above), all disease-row orders (<=4 rows, rotations above), both loaders", dags.len(), &POOL_ROOTS[..n]));
+        ctx.space("jax/D3", &format!("{} labelled DAGs over {:?} x 8 subsets; all stanza orders, all gene-row orders (<=4 rows, rotations above), all disease-row orders (<=4 rows, rotations above), both loaders; odd subsets carry a replacement chain", dags.len(), &POOL_ROOTS[..n]));
         for d in &dags {
             for s in 0..(1u32 << n) {
                 if !ctx.take() {
@@ -282,7 +282,14 @@ pub fn run(ctx: &mut Ctx) {
                 let twins: Vec<AnnFact> = anns.iter().filter(|a| a.kind == crate::model::Kind::Orpha && a.id == 77).map(|a| Facts::ann(crate::model::Kind::Omim, 77, "Omim seventy-seven", a.term)).collect();
                 anns.retain(|a| !(a.kind == crate::model::Kind::Orpha && a.id == 78));
                 anns.extend(twins);
-                let base = Facts { anns, ..base };
+                let mut base = Facts { anns, ..base };
+                // odd subsets: a replacement chain 119 -> 118 -> 1 with the first link obsolete (each term keeps the
+                // replacement its own stanza states, whatever the stanza order)
+                if s % 2 == 1 {
+                    base.terms[2].obsolete = true;
+                    base.terms[2].replacement = Some(ids[1]);
+                    base.terms[1].replacement = Some(ids[0]);
+                }
                 if base.edges.len() >= 1 {
                     ctx.nontrivial();
                 }
